@@ -176,6 +176,10 @@ func genGroup(k Knobs, r *rand.Rand, gi int, name string) (sim.GroupSpec, int64,
 		NodeMem: pick(r, int64(4<<30), 8<<30, 16<<30, 64<<30, 7500000000),
 		RegLag:  pick(r, time.Duration(0), 20*time.Second, 90*time.Second),
 	}
+	if r.Intn(25) == 0 {
+		// very large machines: group totals of hundreds of terabytes (10^17..10^18 in the milli-units escalator computes in)
+		spec.NodeMem = pick(r, int64(12)<<40, int64(16)<<40, 17000000000000)
+	}
 	return spec, asgMin, asgMax
 }
 
